@@ -9,7 +9,7 @@ def n_of(c, quick, thorough):
 
 
 def c03(tier=None):
-    c = Check("C03", ["Wasp.Properties.Facts.Wiring", "Wasp.Properties.C03", "Wasp.Properties.C02Pool", "Wasp.Properties.C02E2E", "Wasp.Properties.C06", "Wasp.Properties.C04", "Wasp.Properties.Facts.C03"], tier)
+    c = Check("C03", ["Wasp.Properties.Facts.Wiring", "Wasp.Properties.C03", "Wasp.Properties.C03C14E2E", "Wasp.Properties.C02Pool", "Wasp.Properties.C02E2E", "Wasp.Properties.C06", "Wasp.Properties.C04", "Wasp.Properties.Facts.C03"], tier)
     c.build()
     samples = []
     scs = brokerlib.corpus(c.rng, ["slow-qos2", "wrong-type-ack", "inbound-outbound-id", "ids-return-after-recipient-vanished", "takeover-with-unacked-delivery"])
@@ -39,7 +39,7 @@ def c05(tier=None):
 
 
 def c14(tier=None):
-    c = Check("C14", ["Wasp.Properties.Facts.Wiring", "Wasp.Properties.C14", "Wasp.Properties.Reachable2", "Wasp.Properties.E2EMulti", "Wasp.Properties.Facts.C14"], tier)
+    c = Check("C14", ["Wasp.Properties.Facts.Wiring", "Wasp.Properties.C14", "Wasp.Properties.C03C14E2E", "Wasp.Properties.Reachable2", "Wasp.Properties.E2EMulti", "Wasp.Properties.Facts.C14"], tier)
     c.build()
     samples = []
     scs = brokerlib.corpus(c.rng, ["broken-recipient"])
@@ -70,7 +70,7 @@ def c12(tier=None):
     samples = []
     scs = [gen_lifecycle(c.rng, c.rng.choice([1, 2, 2]), 1, takeover=0.6) for _ in range(n_of(c, 12, 160))]
     run_scenarios(c, "takeover-converged", scs, samples)
-    scs = brokerlib.corpus(c.rng, ["takeover-out-of-order", "removal-overtakes-creation", "takeover-then-stale-snapshot", "takeover-with-unacked-delivery"])
+    scs = brokerlib.corpus(c.rng, ["takeover-out-of-order", "removal-overtakes-creation", "takeover-then-stale-snapshot", "takeover-with-unacked-delivery", "displacer-gone-before-ping"])
     scs += [gen_lifecycle(c.rng, c.rng.choice([2, 3]), 1, takeover=0.5, fine_gossip=True) for _ in range(n_of(c, 8, 120))]
     run_scenarios(c, "takeover-gossip-schedules", scs, samples)
     return c.finish(samples=samples, rule="case = one script with pairs / chains of connections sharing a client identifier on the same or different nodes, old-session ping / subscribe / disconnect and gossip deliveries interleaved")
